@@ -19,8 +19,8 @@ PROPS["C01"] = {
     "tie": ["NsyncVerif.Proofs.TieConsts"],
     "oracles": {"exclusion", "exclusion-ann", "panic"},
     "plan": {
-        "quick": [("core", 60, 6), ("cv", 50, 6), ("cv_raw", 30, 6), ("muwait", 50, 6), ("waitn_cv", 30, 6), ("debug", 40, 6), ("cv_rsignal", 60, 8), ("waitn", 80, 8), ("waitn_rep", 60, 8), ("cancel_only", 40, 6)],
-        "thorough": [("cv_rsignal", 600, 16), ("core", 600, 12), ("cv", 500, 12), ("cv_raw", 300, 12), ("muwait", 500, 12), ("waitn_cv", 300, 12), ("debug", 400, 12), ("mixed", 500, 12), ("waitn", 800, 12), ("waitn_rep", 600, 12), ("cancel_only", 400, 12)],
+        "quick": [("core", 60, 6), ("cv", 50, 6), ("cv_raw", 30, 6), ("muwait", 50, 6), ("waitn_cv", 30, 6), ("debug", 40, 6), ("cv_rsignal", 60, 8), ("waitn", 80, 8), ("waitn_rep", 60, 8), ("cancel_only", 40, 6), ("longwait_timeout", 30, 6), ("starve_mix", 20, 8)],
+        "thorough": [("cv_rsignal", 600, 16), ("core", 600, 12), ("cv", 500, 12), ("cv_raw", 300, 12), ("muwait", 500, 12), ("waitn_cv", 300, 12), ("debug", 400, 12), ("mixed", 500, 12), ("waitn", 800, 12), ("waitn_rep", 600, 12), ("cancel_only", 400, 12), ("longwait_timeout", 300, 10), ("starve_mix", 200, 12)],
     },
     "level_text": "Kernel-checked theorems C01_exclusion / C01_reader_excludes_writer / C01_exclusion_ann / C01_word_agrees / C01_store_sound over the MuX model (one step per atomic operation on the mutex word, any number of threads, all interleavings, all acquisition paths incl. timeout/cancel re-acquisition and the plain release-stores); tied to the code by lockstep replay of harness executions of the real sources through the MuX acceptor, with exclusion oracles on the implementation side",
     "level_note": "Proved for the model; model=code is established on the executions replayed (sampled, coverage in evidence). Hint bits are uninterpreted in this layer. SC interleavings at atomic-operation granularity. Client contract assumed (acceptor rejects violations).",
@@ -35,7 +35,8 @@ PROPS["C07"] = {
                  "C07_lock_discipline", "C07_spin_never_locks"]],
     "layers": ["once", "mux"],
     "oracles": {"once-early-return", "once-count", "stuck", "panic", "crash"},
-    "plan": {"quick": [("once", 150, 8)], "thorough": [("once", 1500, 16)]},
+    "plan": {"quick": [("once", 150, 8), ("once_nested", 80, 8)], "thorough": [("once", 1500, 16), ("once_nested", 800, 16)]},
+    "family_layers": {"once_nested": ["mux"]},
     "level_text": "Kernel-checked theorems over the Once model (once.c statement by statement, one step per atomic operation / lock operation / callback boundary; any number of threads and once objects, arbitrary slot hashing): the function is entered at most once, only by the CAS winner; no call returns before the run completed; done calls are wait-free; no stuck state; deadlock freedom (C07_progress). Tied to the code by lockstep replay of harness executions of the real once.c through the Once acceptor (and the embedded mutex traffic through MuX).",
     "level_note": "The slot mutex/cv is abstract in this layer (single-step lock/unlock; justified by C01, whose acceptor replays the same logs). Fair termination from C07_progress/C07_no_stuck_state is a paper argument. Model=code on the executions replayed.",
     "trusted_extra": ["slot mutex behaves as a lock (C01/C02)"],
@@ -198,10 +199,11 @@ PROPS["C04"] = {
                  "C04_remove_count_handshake", "C04_outcome_partial", "C04_exitUnl_is_unl", "C04_outcome", "C04_waker_unlinked_is_ready", "C04_dequeue_waits_for_waker",
                  "C04_signal", "C04_broadcast", "C04_broadcast_unlinks_all", "C04_no_lost_wake", "C04_f3_schedule_fixed", "C04_f3_old_behaviour_rejected"]],
     "layers": ["cv", "mux"],
-    "oracles": {"swallowed-wakeup", "dead-object", "stuck", "steplimit", "early-timeout", "bad-cancel", "bad-result", "panic", "crash"},
-    "plan": {"quick": [("cv", 120, 8), ("cv_raw", 60, 8), ("cv_rsignal", 60, 8), ("waitn_cv", 80, 8), ("cv_rwr", 60, 6), ("cv@ps", 80, 8), ("waitn_cv@ps", 60, 8)],
-             "thorough": [("cv", 1200, 16), ("cv_raw", 600, 16), ("cv_rsignal", 600, 16), ("waitn_cv", 800, 16), ("cv_rwr", 600, 12), ("cv@ps", 800, 16), ("waitn_cv@ps", 600, 16)]},
+    "oracles": {"cv-woken-asleep", "swallowed-wakeup", "dead-object", "stuck", "steplimit", "early-timeout", "bad-cancel", "bad-result", "panic", "crash"},
+    "plan": {"quick": [("cv", 120, 8), ("cv_raw", 60, 8), ("cv_rsignal", 60, 8), ("waitn_cv", 80, 8), ("cv_rwr", 60, 6), ("cv@ps", 80, 8), ("waitn_cv@ps", 60, 8), ("muc_cv", 80, 8)],
+             "thorough": [("cv", 1200, 16), ("cv_raw", 600, 16), ("cv_rsignal", 600, 16), ("waitn_cv", 800, 16), ("cv_rwr", 600, 12), ("cv@ps", 800, 16), ("waitn_cv@ps", 600, 16), ("muc_cv", 800, 16)]},
     "harness_args": ["checkplain=1"],
+    "family_layers": {"muc_cv": ["cv", "muc", "mux"]},
     "level_text": "Kernel-checked theorems over the CvFix model (cv.c — with the repair of defect F3 — and sem_wait.c statement by statement: cv word, queue, pooled waiter records with remove_count and bare nsync_waiter_s records of nsync_wait_n, private to-wake lists, transfer to the mutex queue; any number of threads; both semaphore flavours): queue/non-empty-bit invariant, spinlock exclusion, enqueue-before-release (wait is atomic w.r.t. wakers), signal unlinks the first waiter and, if it is a reader, every reader plus at most one other, broadcast unlinks every waiter enqueued before its first load, an unlinked record is woken (flag cleared and semaphore posted) or its waker is still in flight (no lost wake-up), every wait instance is unlinked at most once, by a waker xor by itself — for ALL record kinds (C04_unlink_once) —, a cv wait returns non-zero only if it unlinked itself, and for nsync_wait_n cv_dequeue reports 'still enqueued' exactly when the record was unlinked by its owner (a waker-unlinked record is reported as ready: C04_outcome). Tied to the code by lockstep replay of the cv / cv_raw / cv_rsignal / waitn_cv families (incl. cancellable waits) through the CvFix acceptor, with the swallowed-wake-up and dead-object oracles on the implementation side.",
     "level_note": "On the pinned tree C04_unlink_once / C04_outcome were false for nsync_wait_n records (defect F3, now fixed in /repo: the old Cv model with the refutation is kept in the library as Props/C04.lean, the F3 schedule is a corpus regression). Transferred waiters are handed to the mutex queue (C02). The mutex is abstract in this layer. Fair termination is a paper step.",
 }
@@ -265,20 +267,21 @@ PROPS["C11"] = {
 }
 
 PROPS["C13"] = {
-    "imports": ["NsyncVerif.Props.C13Mu", "NsyncVerif.Props.C13CvFix", "NsyncVerif.Props.C13WaitN", "NsyncVerif.Props.C13Cancel"],
+    "imports": ["NsyncVerif.Props.C13Mu", "NsyncVerif.Props.C13CvFix", "NsyncVerif.Props.C13WaitN", "NsyncVerif.Props.C13Cancel", "NsyncVerif.Props.PoolContract"],
     "theorems": ["NsyncVerif.MuQ." + t for t in ["C13_release_point", "C13_before_release_point", "C13_release_is_last_needed"]] +
                 ["NsyncVerif.CvFix." + t for t in ["C13_record_touch", "C13_record_touch_nw_full_true", "C13_listed_owner_waits", "C13_listed_alive",
                  "C13_owner_returns_clean", "C13_owner_returns_clean_waitn", "C13_idle_not_touched", "C13_late_V_touches_nothing"]] +
                 [WN + t for t in ["C13_record_lifetime", "C13_owner_access", "C13_record_lifetime_post", "C13_owner_returns_after", "C13_owner_returns_after_stack"]] +
-                ["SemWait." + t for t in ["C13_cancel_record_touch", "C13_cancel_owner_access", "C13_cancel_owner_returns_clean", "C13_cancel_remove_safe"]],
-    "layers": ["muq", "mux"],
-    "family_layers": {"refcount": ["muq", "mux"], "core": ["muq", "mux"], "waitn": ["waitn", "cv", "mux"], "waitn_rep": ["waitn", "cv", "mux"], "waitn_cv": ["waitn", "cv", "mux"],
-                      "waitn_f3": ["waitn", "cv", "mux"], "cv": ["semwait", "cv", "mux"], "muc": ["semwait", "muc", "mux"], "cancel_only": ["semwait", "cv", "muc", "mux"], "corpus": ["waitn", "cv", "mux"]},
+                ["SemWait." + t for t in ["C13_cancel_record_touch", "C13_cancel_owner_access", "C13_cancel_owner_returns_clean", "C13_cancel_remove_safe"]] +
+                ["Pool." + t for t in ["Pool_exclusive", "Pool_exclusive_trace", "Pool_free_list_inv", "Pool_init", "Pool_remove_count_monotone", "Pool_reserved", "Pool_no_leak_partial", "Pool_client_checks"]],
+    "layers": ["pool", "muq", "mux"],
+    "family_layers": {"refcount": ["pool", "muq", "mux"], "core": ["pool", "muq", "mux"], "waitn": ["pool", "waitn", "cv", "mux"], "waitn_rep": ["pool", "waitn", "cv", "mux"], "waitn_cv": ["pool", "waitn", "cv", "mux"],
+                      "waitn_f3": ["pool", "waitn", "cv", "mux"], "cv": ["pool", "semwait", "cv", "mux"], "muc": ["pool", "semwait", "muc", "mux"], "cancel_only": ["pool", "semwait", "cv", "muc", "mux"], "corpus": ["pool", "waitn", "cv", "mux"]},
     "oracles": {"dead-object", "dead-stack", "stuck", "steplimit", "panic", "crash", "exclusion", "exclusion-ann"},
     "plan": {"quick": [("refcount", 150, 10), ("waitn", 100, 8), ("waitn_rep", 80, 8), ("waitn_f3", 60, 8), ("cv", 80, 8), ("muc", 40, 6), ("cancel_only", 80, 8), ("refcount@ps", 100, 10), ("waitn_rep@ps", 60, 8), ("cv@ps", 60, 8)],
              "thorough": [("refcount", 1500, 20), ("waitn", 1000, 16), ("waitn_rep", 800, 16), ("waitn_f3", 600, 16), ("cv", 800, 16), ("muc", 400, 12), ("cancel_only", 800, 16), ("refcount@ps", 1000, 20), ("waitn_rep@ps", 600, 16), ("cv@ps", 600, 16)]},
     "harness_args": ["checkplain=1"],
-    "level_text": "Kernel-checked theorems: (mutex, MuQ model) once a thread inside nsync_mu_unlock / runlock / unlock_slow owns neither a share nor the spinlock, no later step of that call touches the mutex, and the step that crosses that point is a successful CAS on the word (C13_release_point, C13_release_is_last_needed): whoever acquires afterwards and frees the memory races with nothing; (cv, CvFix model of the repaired cv.c) every access to a waiter record by a thread other than its owner happens while the record is queued or on that waker's private list with its owner still inside the wait, for pooled records and for nsync_wait_n records alike, and the owner returns only after the record is on no list (C13_record_touch, C13_record_touch_nw_full_true, C13_owner_returns_clean[_waitn]); the V that follows the waker's last store touches no record (C13_late_V_touches_nothing); (nsync_wait_n, WaitN model) every access by a non-owner to a record of notes / counters / cvs is to a registered record, and at the return no record of the call is registered, queued or on a waker's list (C13_record_lifetime, C13_owner_returns_after); (cancellable cv / mu waits, SemWait model of sem_wait.c with the note-side walk of note.c) every access by a notifier to the on-stack record of nsync_sem_wait_with_cancel_ happens under the note's mutex with the record at the head of the note's list or just popped, while the owner is between its enqueue and the return of its final nsync_mu_lock (&note_mu), and the owner returns with the record on no list and no post owed (C13_cancel_record_touch, C13_cancel_owner_returns_clean). Tied to the code by lockstep (refcount / waitn* / cv / muc families through the matching acceptors) and by the runtime's liveness tracking: every atomic AND plain access (TSan instrumentation) of every explored execution is checked against reclaimed heap blocks, reclaimed mutexes and dead stack records (oracles dead-object, dead-stack).",
+    "level_text": "Kernel-checked theorems: (mutex, MuQ model) once a thread inside nsync_mu_unlock / runlock / unlock_slow owns neither a share nor the spinlock, no later step of that call touches the mutex, and the step that crosses that point is a successful CAS on the word (C13_release_point, C13_release_is_last_needed): whoever acquires afterwards and frees the memory races with nothing; (cv, CvFix model of the repaired cv.c) every access to a waiter record by a thread other than its owner happens while the record is queued or on that waker's private list with its owner still inside the wait, for pooled records and for nsync_wait_n records alike, and the owner returns only after the record is on no list (C13_record_touch, C13_record_touch_nw_full_true, C13_owner_returns_clean[_waitn]); the V that follows the waker's last store touches no record (C13_late_V_touches_nothing); (nsync_wait_n, WaitN model) every access by a non-owner to a record of notes / counters / cvs is to a registered record, and at the return no record of the call is registered, queued or on a waker's list (C13_record_lifetime, C13_owner_returns_after); (cancellable cv / mu waits, SemWait model of sem_wait.c with the note-side walk of note.c) every access by a notifier to the on-stack record of nsync_sem_wait_with_cancel_ happens under the note's mutex with the record at the head of the note's list or just popped, while the owner is between its enqueue and the return of its final nsync_mu_lock (&note_mu), and the owner returns with the record on no list and no post owed (C13_cancel_record_touch, C13_cancel_owner_returns_clean). The waiter-pool contract all these layers assume is itself modelled and proved (Pool layer over common.c: a waiter struct is in use by at most one call at a time, the free list holds exactly the idle non-reserved structs and is touched only under its spinlock, `remove_count` / `waiting` / `flags` / `sem` are written by pool code only in the initialisation block — so remove_count is monotone across reuses —, a thread's reserved struct comes back to that thread: Pool_exclusive, Pool_free_list_inv, Pool_init, Pool_remove_count_monotone, Pool_reserved). Tied to the code by lockstep (refcount / waitn* / cv / muc families through the matching acceptors) and by the runtime's liveness tracking: every atomic AND plain access (TSan instrumentation) of every explored execution is checked against reclaimed heap blocks, reclaimed mutexes and dead stack records (oracles dead-object, dead-stack).",
     "level_note": "The SemWait layer models ONE flat cancel note per record (parents enter through an `inherit` event) and protocol-driven notifiers; the forest is the Note layer's business. Defect F3 (found by this property's oracle) is repaired in /repo; the pre-repair model and refutation are kept (Props/C13Cv.lean). Sampled correspondence.",
 }
 
@@ -290,10 +293,10 @@ PROPS["C05"] = {
                 ["SemWait." + t for t in ["C05_cancel_reason", "C05_cancel_reason_enqueued", "C05_cancel_consumed_step", "C05_cancel_zero_takes_token", "C05_cancel_no_missed",
                  "C05_cancel_unlock_needs_empty", "C05_cancel_p_deadline", "C05_cancel_deadline_bound", "C05_cancel_l65_notified"]],
     "layers": ["cv", "mux"],
-    "family_layers": {"cv": ["semwait", "cv", "mux"], "cv_raw": ["cv", "mux"], "muwait": ["muc", "mux"], "muc": ["semwait", "muc", "mux"], "cancel_only": ["semwait", "cv", "muc", "mux"], "cancel_children": ["semwait", "mux"], "timed_contended": ["cv", "muc", "mux"]},
+    "family_layers": {"cv": ["semwait", "cv", "mux"], "cv_raw": ["cv", "mux"], "muwait": ["muc", "mux"], "muc": ["semwait", "muc", "mux"], "cancel_only": ["semwait", "cv", "muc", "mux"], "cancel_children": ["semwait", "mux"], "longwait_timeout": ["muc", "mux"], "timed_contended": ["cv", "muc", "mux"]},
     "oracles": {"early-timeout", "bad-cancel", "bad-result", "muwait-result", "swallowed-wakeup", "exclusion", "exclusion-ann", "stuck", "steplimit", "panic", "crash", "dead-object"},
-    "plan": {"quick": [("cv", 120, 8), ("cv_raw", 40, 8), ("muwait", 100, 8), ("muc", 80, 6), ("cancel_only", 120, 10), ("cancel_children", 80, 10), ("timed_contended", 100, 10)],
-             "thorough": [("cv", 1200, 16), ("cv_raw", 400, 16), ("muwait", 1000, 16), ("muc", 800, 12), ("cancel_only", 1200, 20), ("cancel_children", 800, 20), ("timed_contended", 1000, 20)]},
+    "plan": {"quick": [("cv", 120, 8), ("cv_raw", 40, 8), ("muwait", 100, 8), ("muc", 80, 6), ("cancel_only", 120, 10), ("cancel_children", 80, 10), ("timed_contended", 100, 10), ("longwait_timeout", 30, 6)],
+             "thorough": [("cv", 1200, 16), ("cv_raw", 400, 16), ("muwait", 1000, 16), ("muc", 800, 12), ("cancel_only", 1200, 20), ("cancel_children", 800, 20), ("timed_contended", 1000, 20), ("longwait_timeout", 300, 10)]},
     "harness_args": ["checkplain=1"],
     "level_text": "Kernel-checked theorems. cv half (CvFix model of cv.c + sem_wait.c): the value returned by nsync_cv_wait_with_deadline is the recorded outcome of the sleep (C05_result_is_outcome); ETIMEDOUT only with the deadline reached on the model clock, ECANCELED only with the cancel note notified (C05_timedout, C05_cancelled); once the outcome is non-zero the thread performs no further semaphore wait in this call before re-acquiring the mutex (C05_no_resleep, C05_not_sleeping). mu_wait half (MuC model of mu_wait.c on top of the mutex core): the call returns holding the mutex in the mode it was called with (C05_mode), returns 0 exactly when the condition is true at the return (C05_mu_wait_0), ETIMEDOUT / ECANCELED only for the stated reason (C05_timedout, C05_cancelled), a timed P never outlasts the deadline (C05_timed_p_deadline), and after a non-zero outcome no P is issued in that pass of the wait loop (C05_no_resleep_partial). The shared sleep nsync_sem_wait_with_cancel_ (SemWait model: sem_wait.c with the note concretely — flag, deadline, list, mutex): ECANCELED only with the note notified or expired, ETIMEDOUT only with the deadline reached, 0 only with a token consumed (C05_cancel_reason); the P is issued with min(deadline, note expiry) and a timeout with the note's deadline nearer is converted to ECANCELED after the waiter itself notified the note (C05_cancel_p_deadline, C05_cancel_deadline_bound); and 'needs no further wake-up' in safety form: a notified note never leaves a waiter asleep unless its record is queued with the notifier holding the note's mutex, or a post is owed or pending (C05_cancel_no_missed — the control trace with the re-read under the lock removed is accepted by the variant model and ends with the waiter lost). Tied to the code by lockstep (cv / cv_raw families through CvFix, muwait / muc families through MuC, with cancel notes fresh / already notified / expiring, reader and writer mode) and by the interpreter's assertions on every wait return (shadow lock mode, virtual clock vs deadline, note flag, value of the condition).",
     "level_note": "The literal reading 'no further semaphore wait' is REFUTED for nsync_mu_wait_with_deadline (C05_no_resleep_full_refuted: a timed-out waiter re-acquires through lock_slow and may sleep there; with the condition false it goes round the loop again with an already expired deadline) — this is consistent with the property's own wording ('returns as soon as the mutex can be re-acquired'), so it is not a finding. 'Holding the lock in the same mode' for the cv half rests on the mutex layer (C01/C02) and the interpreter's shadow mode. The cancel note is abstract in the CvFix and MuC models (they assume the waiter's own lazy-expiry notify does not sleep — with children of the cancel note being disconnected it may, in WAIT_FOR_NO_CHILDREN; such executions, family cancel_children, are replayed through SemWait and MuX only) and concrete in SemWait (one flat note per record). Fair termination is a paper step; termination of every explored execution is checked (oracle stuck).",
@@ -309,12 +312,31 @@ PROPS["C06"] = {
                  "C06_no_stuck_state", "C06_writer_waiting_justified", "C06_long_wait_justified", "C06_responsible", "C06_responsible_pending",
                  "C06_timeout_store_clean", "C06_lock_slow_record", "C06_quiescent_no_plain_waiter"]],
     "layers": ["muc", "mux"],
+    "family_layers": {"muc_cv": ["cv", "muc", "mux"]},
     "tie": ["NsyncVerif.Proofs.TieConsts"],
-    "oracles": {"cond-under-lock", "muwait-result", "muwait-missed", "stuck", "steplimit", "panic", "crash", "exclusion", "exclusion-ann", "early-timeout", "bad-cancel", "bad-result"},
-    "plan": {"quick": [("muc", 160, 8), ("muwait", 100, 8), ("timed_contended", 80, 10), ("muc_eqmix", 100, 10)],
-             "thorough": [("muc", 1600, 16), ("muwait", 1000, 16), ("timed_contended", 800, 20), ("muc_eqmix", 1000, 20)]},
+    "oracles": {"cv-woken-asleep", "cond-under-lock", "muwait-result", "muwait-missed", "stuck", "steplimit", "panic", "crash", "exclusion", "exclusion-ann", "early-timeout", "bad-cancel", "bad-result"},
+    "plan": {"quick": [("muc", 160, 8), ("muwait", 100, 8), ("timed_contended", 80, 10), ("muc_eqmix", 100, 10), ("muc_cv", 80, 8), ("longwait_timeout", 30, 6), ("starve_mix", 20, 8)],
+             "thorough": [("muc", 1600, 16), ("muwait", 1000, 16), ("timed_contended", 800, 20), ("muc_eqmix", 1000, 20), ("muc_cv", 800, 16), ("longwait_timeout", 300, 10), ("starve_mix", 200, 12)]},
     "level_text": "Kernel-checked theorems over the MuC model (mu.c + mu_wait.c — as repaired by ace4c21 — statement by statement: condition records, same-condition rings, unlock_slow's scan with condition evaluation, MU_CONDITION / MU_ALL_FALSE hints, timeouts and cancellations, unlock_without_wakeup; any number of threads): every condition is evaluated by a thread that owns a share of the lock or the writer bit, never concurrently with another thread's write critical section, and it is the condition the queue record prescribes with the value the protected data gives (C06_cond_under_lock); the lock / spinlock / queue invariants (C06_inv_lock, C06_inv_spin, C06_inv_queue); the ring invariant is inductive and the skip over a same-condition ring passes only waiters whose condition is false on the current data (C06_samecond_ring_sound, C06_skip_sound); both hint bits mean what common.h says — MU_CONDITION clear: no queued waiter has a condition; MU_ALL_FALSE set: every queued condition is false on the data as they were when the current write section began (C06_hint, C06_hint_all_false); NO MISSED CONDITION (C06_no_missed_cond): in every reachable state in which a queued waiter's condition is true (and unlock_without_wakeup's contract was kept) some thread is responsible for it — it holds a share, or is an unlocker / a woken thread in flight, or has timed out and is re-acquiring (C06_true_cond_has_responsible); MU_DESIG_WAKER is never set without such a thread (C06_desig_waker_justified); a release by unlock_without_wakeup leaves asleep only waiters whose conditions are false on the data, or somebody else is responsible (C06_without_wakeup_sound, C06_without_wakeup_no_missed); NO STUCK STATE (C06_no_stuck_state): in a reachable quiescent state every sleeper is a condition waiter that is queued with a condition that is false — in particular nobody sleeps inside nsync_mu_lock / rlock; this rests on 'the hints are never stale' for the model with conditional critical sections: MU_WRITER_WAITING set implies a writer that justifies it (C06_writer_waiting_justified), MU_LONG_WAIT set implies a long waiter queued or in flight (C06_long_wait_justified), and every queued sleeper whose condition is true or absent has somebody responsible (C06_responsible). Tied to the code by lockstep replay of the muc / muwait / muc_eqmix / timed_contended families through the MuC acceptor — which checks, on every explored execution, which conditions the scan evaluates, which waiters it wakes and every word value — and by the interpreter's oracles: stuck, muwait-missed (a waiter asleep at quiescence although its condition is true and the mutex is free), cond-under-lock.",
     "level_note": "Found while proving these invariants: defect F8 (mu_wait.c decided from a stale word whether its release must wake waiters — repaired in /repo, ace4c21; what the pinned code did is recorded by C06_no_missed_cond_old_code_witness / C06_no_stuck_state_old_code_witness against the old rule, and by the corpus regressions). Every `_full` statement of Props/C06.lean is now proved, or refuted and proved in corrected form. The literal C06_without_wakeup_sound_full is refuted as stated (the fast path is also taken under MU_DESIG_WAKER) and proved in corrected form. 'Rings are maximal runs' is refuted — harmless. 'Returns once its condition has been made true' is the safety form (somebody responsible exists); fair termination is a paper step."
 }
 for k in ("C05", "C06", "C11", "C13"):
     NOT_YET.pop(k, None)
+
+
+# G4: source fingerprints of the functions each acceptor layer models (Proofs/TieSrc/<Layer>.lean); a property inherits
+# the ties of every layer it replays (incl. the per-family ones) and of the layers its theorems are about.
+LAYER_SRC = {"pool": "Pool", "muq": "Muq", "muc": "Muc", "cv": "Cv", "cvmu": "Cv", "waitn": "Waitn", "semwait": "Semwait", "note": "Note", "counter": "Counter",
+             "once": "Once", "futex": "Futex", "time": "Time", "emit": "Emit", "dll": "Dll", "deadline": "Deadline"}
+EXTRA_SRC = {"C01": ["Muc"], "C03": ["Muq", "Note"], "C13": ["Muq"], "C15": ["Futex", "Time"], "C16": ["Emit"], "C17": ["Dll"], "C18": ["Time"], "C14": ["Muq"], "C02": ["Muq"]}
+for _pid, _spec in PROPS.items():
+    _ls = list(_spec.get("layers", []))
+    for _v in _spec.get("family_layers", {}).values():
+        _ls += _v
+    _mods = []
+    for _l in _ls:
+        if _l in LAYER_SRC and LAYER_SRC[_l] not in _mods:
+            _mods.append(LAYER_SRC[_l])
+    for _m in EXTRA_SRC.get(_pid, []):
+        if _m not in _mods: _mods.append(_m)
+    _spec["tie"] = list(_spec.get("tie", [])) + ["NsyncVerif.Proofs.TieSrc." + _m for _m in _mods]
